@@ -5,5 +5,8 @@
 ; sig rb_at$ : ByteArr Slice Int Int Int -> BV8
 (define-fun rb_buffered ((size Int) (r Int) (w Int) (e Bool)) Int
   (ite (= r w) (ite e 0 size) (ite (> w r) (- w r) (+ (- size r) w))))
-(define-fun rb_at$ ((m ByteArr) (b Slice) (size Int) (r Int) (k Int)) (_ BitVec 8)
-  (el8 m b (go_mod (+ r k) size)))
+; a named function (unfolded wherever it occurs) so that quantified facts about the k-th byte have a trigger in which k
+; appears on its own
+(declare-fun rb_at$ (ByteArr Slice Int Int Int) (_ BitVec 8))
+(assert (forall ((m ByteArr) (b Slice) (size Int) (r Int) (k Int))
+  (! (= (rb_at$ m b size r k) (el8 m b (go_mod (+ r k) size))) :pattern ((rb_at$ m b size r k)))))
